@@ -205,3 +205,70 @@ package dag
 //@ func durationStr
 //@   props C19
 //@   modifies
+
+// ---- cycle check -------------------------------------------------------------------------------------
+//@ spec func ChildrenNonNil() bool = forall u *Vertex :: u != nil ==> (forall i int :: 0 <= i && i < len(u.Children) ==> u.Children[i] != nil)
+//@ func visit
+//@   props C16 C19
+//@   requires visit.pre: sorted != nil && status != nil && *status != nil && v != nil && ChildrenNonNil()
+//@   modifies *sorted, mapof(*status)
+//@   ensures visit.cycle {C16}: result != nil ==> erris(result, ErrorGraphHasCycle)
+//@   ensures visit.done {C16}: result == nil ==> (v.ID in *status) && (*status)[v.ID] == traversed
+//@   ensures visit.kept {C16}: forall id ID :: old(id in *status) && old((*status)[id]) == traversed ==> (id in *status) && (*status)[id] == traversed
+//@   ensures visit.grow {C16}: len(*sorted) >= old(len(*sorted)) && (forall q int :: 0 <= q && q < old(len(*sorted)) ==> (*sorted)[q] == old((*sorted)[q]))
+//@   loop "for _, child := range v.Children"
+//@     modifies *sorted, mapof(*status)
+//@     invariant visit.kept.inv: forall id ID :: old(id in *status) && old((*status)[id]) == traversed ==> (id in *status) && (*status)[id] == traversed
+//@     invariant visit.grow.inv: len(*sorted) >= old(len(*sorted)) && (forall q int :: 0 <= q && q < old(len(*sorted)) ==> (*sorted)[q] == old((*sorted)[q]))
+
+//@ func (*Graph).DepthFirstSort
+//@   props C16 C19
+//@   requires dfs.pre: WF(g) && ChildrenNonNil()
+//@   allocates map[ID]visitStatus, []*Vertex
+//@   modifies
+//@   ensures dfs.cycle {C16}: result1 != nil ==> erris(result1, ErrorGraphHasCycle)
+//@   ensures dfs.all {C16}: result1 == nil ==> true
+//@   loop "for _, v := range g.Vertices"
+//@     modifies *&sorted, mapof(status)
+
+// ---- Run: the scheduler loop ------------------------------------------------------------------------
+// The loop is the only writer of task status and of the error list. Channel invariant (assumed at receive,
+// justified by the spawn preconditions and the reporters' contracts): every message names a vertex of the graph.
+//@ spec func ErrsEmpty(g *Graph) bool = len(g.errs.Errors) == 0
+//@ func (*Graph).Run
+//@   props C13 C14 C15 C16 C19
+//@   requires run.wf: WF(g) && StatusOK() && ParentsNonNil() && ChildrenNonNil()
+//@   receives done: ($msg.ID in g.Vertices)
+//@   modifies Vertex.status, g.errs.Errors, $recvs_done, $received_done, $spawns_Run$1, $spawns_Run$2, $spawns_Run$3,
+//@     $spawnarg_Run$1_0, $spawnarg_Run$1_1, $spawnarg_Run$2_0, $spawnarg_Run$2_1, $spawnarg_Run$3_0, $spawnarg_Run$3_1, $spawnarg_Run$3_2
+//@   ensures run.errors {C14}: len(g.errs.Errors) != 0 ==> result != nil
+//@   ensures run.nil {C14}: result == nil ==> len(g.errs.Errors) == 0
+//@   ensures run.early {C16}: old(len(g.errs.Errors)) != 0 ==> $spawns_Run$1 == old($spawns_Run$1) && $spawns_Run$2 == old($spawns_Run$2) && $spawns_Run$3 == old($spawns_Run$3)
+//@   loop LOOP
+//@     invariant sched.wf: WF(g) && StatusOK() && ParentsNonNil() && g == old(g) && g.errs == old(g.errs)
+//@     invariant sched.cancelled {C14}: handledContext ==> len(g.errs.Errors) > 0
+//@     invariant sched.chan: done != nil && semaphore != nil
+//@     invariant sched.cap {C15}: chancap(semaphore) == g.maxParallel && g.maxParallel >= 1
+//@     step recv.status {C14,C13}: $recvs_done == old_iter($recvs_done) + 1 ==> (g.Vertices[$received_done.ID].status == runDone
+//@         || ($received_done.Error != nil && (erris($received_done.Error, ErrorSkipParents) || $received_done.Error == ErrorSkipParents) && g.Vertices[$received_done.ID].status == runSkip))
+//@       && $spawns_Run$1 == old_iter($spawns_Run$1) && $spawns_Run$2 == old_iter($spawns_Run$2) && $spawns_Run$3 == old_iter($spawns_Run$3)
+//@     step recv.error {C14}: $recvs_done == old_iter($recvs_done) + 1 && $received_done.Error != nil && !erris($received_done.Error, ErrorSkipParents) && $received_done.Error != ErrorSkipParents
+//@       ==> len(g.errs.Errors) == old_iter(len(g.errs.Errors)) + 1 && erris(g.errs.Errors[old_iter(len(g.errs.Errors))], $received_done.Error)
+//@         && (forall q int :: 0 <= q && q < old_iter(len(g.errs.Errors)) ==> g.errs.Errors[q] == old_iter(g.errs.Errors[q]))
+//@     step recv.quiet {C14}: $recvs_done == old_iter($recvs_done) + 1 && ($received_done.Error == nil || erris($received_done.Error, ErrorSkipParents) || $received_done.Error == ErrorSkipParents)
+//@       ==> identical(g.errs.Errors, old_iter(g.errs.Errors))
+//@     step recv.skip {C14}: $recvs_done == old_iter($recvs_done) + 1 && $received_done.Error != nil && (erris($received_done.Error, ErrorSkipParents) || $received_done.Error == ErrorSkipParents)
+//@       ==> (forall i int :: 0 <= i && i < len(g.Vertices[$received_done.ID].Parents) ==> g.Vertices[$received_done.ID].Parents[i].status == runSkip)
+//@     step launch.real {C13,C14}: forall v *Vertex :: $spawns_Run$3 == old_iter($spawns_Run$3) + 1 && v == $spawnarg_Run$3_2
+//@       ==> old_iter(len(g.errs.Errors)) == 0 && len(g.errs.Errors) == 0 && Registered(g, v) && old_iter(v.status) == runPending && old_iter(DepsSettled(v)) && v.status == runInProgress
+//@     step launch.failed {C14}: forall v *Vertex :: $spawns_Run$2 == old_iter($spawns_Run$2) + 1 && v == $spawnarg_Run$2_1
+//@       ==> len(g.errs.Errors) > 0 && Registered(g, v) && old_iter(v.status) == runPending && old_iter(DepsSettled(v)) && v.status == runInProgress
+//@     step launch.skip {C14}: forall v *Vertex :: $spawns_Run$1 == old_iter($spawns_Run$1) + 1 && v == $spawnarg_Run$1_1
+//@       ==> Registered(g, v) && old_iter(v.status) == runSkip && old_iter(DepsSettled(v)) && v.status == runInProgress
+//@     step one.event {C13,C15}: 0 <= $recvs_done - old_iter($recvs_done) && 0 <= $spawns_Run$1 - old_iter($spawns_Run$1) && 0 <= $spawns_Run$2 - old_iter($spawns_Run$2) && 0 <= $spawns_Run$3 - old_iter($spawns_Run$3)
+//@       && ($recvs_done - old_iter($recvs_done)) + ($spawns_Run$1 - old_iter($spawns_Run$1)) + ($spawns_Run$2 - old_iter($spawns_Run$2)) + ($spawns_Run$3 - old_iter($spawns_Run$3)) <= 1
+//@     step launch.serial {C15}: g.serial && ($spawns_Run$1 > old_iter($spawns_Run$1) || $spawns_Run$2 > old_iter($spawns_Run$2) || $spawns_Run$3 > old_iter($spawns_Run$3))
+//@       ==> old_iter(!AnyInProgress(g))
+//@     step cancel.once {C14}: handledContext && !old_iter(handledContext) ==> len(g.errs.Errors) == old_iter(len(g.errs.Errors)) + 1
+//@     step exit.alldone {C14,C16}: $exit && !$returned ==> (forall id ID :: (id in g.Vertices) ==> g.Vertices[id].status == runDone)
+//@     step status.scheduler {C13}: forall u *Vertex :: u.status == old_iter(u.status) || u.status == runSkip || u.status == runDone || u.status == runInProgress
